@@ -221,8 +221,9 @@ func c03R1(h H) {
 	if in != nil {
 		hd, hif := loopOverField(in, "Paths")
 		if hd == nil {
-			r.Unresolve("R1", "Internal.ServeHTTP: loop over Paths not found")
+			r.Fail("R1", "internalsrv.Internal.ServeHTTP/iterates-all-paths", in.Pos(), "no loop that visits every configured internal prefix was found: some prefixes are never tested")
 		} else {
+			r.Hold("R1", "internalsrv.Internal.ServeHTTP/iterates-all-paths", in.Pos(), "a loop over all configured internal prefixes precedes the dispatch")
 			exhaust := map[edge]bool{{hd, 1}: true}
 			_ = hif
 			for k, c := range nextInvokes(in) {
